@@ -72,11 +72,21 @@ def mixed_program(rng, u, depth=0, allow_pos=True, size=None, macros=None, comme
         elif r < 0.80:
             name = rng.choice(sorted(macros)) if macros and rng.random() < 0.9 else rng.choice(["A", "B", "C"])
             nf = macros.get(name, 0)
+            def actual():
+                a = [pp.bt("lit", "x%d" % rng.randint(0, 99))] if rng.random() < 0.85 else []
+                if comments and rng.random() < 0.25:
+                    # a comment inside an actual argument (or inside the group written behind a macro without formals)
+                    a.insert(rng.randint(0, len(a)), pp.bt("cmt", "/* ac%d */" % rng.randint(0, 9)))
+                return a
             if nf == 0:
-                items.append(pp.use(name))
+                if name in macros and rng.random() < 0.2:
+                    # a parenthesised group behind a macro without formals is ordinary text that follows the expansion
+                    items.append(pp.use(name, [actual() for _ in range(rng.randint(1, 2))]))
+                else:
+                    items.append(pp.use(name))
             else:
                 k = nf if rng.random() < 0.85 else rng.randint(0, nf)
-                items.append(pp.use(name, [[pp.bt("lit", "x%d" % rng.randint(0, 99))] if rng.random() < 0.85 else [] for _ in range(max(1, k))]))
+                items.append(pp.use(name, [actual() for _ in range(max(1, k))]))
             if comments and rng.random() < 0.3:
                 items.append(pp.cmt(" after use "))
         elif r < 0.90 and depth < 2:
